@@ -425,9 +425,13 @@ def one_case(res, rng, npr, ests, selfcheck):
     M = op_matrix(terms, n)
     S = sum(abs(c) for _, c in terms)
     p = rand_point(rng, cs.n_in)
-    # the parameter vector is handed over as a list, a tuple or a float64 numpy array (what optimizers pass)
-    pkind = rng.choice(["list", "list", "tuple", "ndarray"])
-    p_arg = {"list": list, "tuple": tuple, "ndarray": lambda v: np.array(v, dtype=float)}[pkind](p)
+    # the parameter vector is handed over as a list, a tuple or a float64 numpy array (what optimizers pass); now and then
+    # with integer components (a start point such as [0, 1, -2]) as Python ints or an integer numpy array
+    pkind = rng.choice(["list", "list", "tuple", "ndarray", "int_list", "int_ndarray"])
+    if pkind.startswith("int"):
+        p = [rng.randint(-3, 3) for _ in range(cs.n_in)]
+    p_arg = {"list": list, "tuple": tuple, "ndarray": lambda v: np.array(v, dtype=float), "int_list": list,
+             "int_ndarray": lambda v: np.array(v, dtype=np.int64)}[pkind](p)
     ename = rng.choice(list(ests))
     est = ests[ename]
     feats = cs.features()
